@@ -11,6 +11,10 @@ def run(ctx):
         "tags and files equal the reference run; non-trivial = every case (>=1 defective chromosome)"
     )
     cfgs = ["BubbleChain_d.cfg"] if not ctx.thorough else ["BubbleChain_d.cfg", "BubbleChain_d3.cfg"]
+    # design check: the per-chromosome loop as a machine (OrderChrom / SkipChrom) satisfies C06 and C18 on every generated graph and order
+    r = ctx.tlc("OrderRun", "OrderRun_q.cfg", coverage=False)
+    if not r.ok:
+        ctx.design_violation("OrderRun", "OrderRun_q.cfg", r)
     jobs = sessions(ctx, cfgs, "C18")
     finish(ctx, jobs, "C18")
     ctx.exhaustive = True
